@@ -749,6 +749,45 @@ fn c06_one(n: usize, spec: &crate::common::ClassingSpec, col: &Mutex<Collector>)
     if let Err(msg) = crate::common::catch(|| a.validate()) {
         fail("validate fails after freeing an allocate-all allocator", format!("n={n}: {msg}"));
     }
+    // no frame at or beyond the managed count is reported free or handed out afterwards
+    for f in n..covered {
+        evals += 1;
+        if a.stats_at(FrameId(f), 0).free_frames != 0 {
+            fail(
+                "frame at or beyond the managed count reported free",
+                format!("n={n} (allocate-all, everything freed) frame {f}"),
+            );
+            break;
+        }
+    }
+    let mut seen = vec![false; n];
+    let mut count = 0usize;
+    loop {
+        evals += 1;
+        match sut.apply(&op) {
+            Res::Got(f, _) => {
+                if f >= n || seen[f] {
+                    fail(
+                        "allocate-all allocator handed out an unmanaged or duplicate frame after everything was freed",
+                        format!("n={n}: {} -> {f}", op.short()),
+                    );
+                    break;
+                }
+                seen[f] = true;
+                count += 1;
+            }
+            _ => break,
+        }
+        if count > n {
+            break;
+        }
+    }
+    if count != n {
+        fail(
+            "allocate-all allocator does not let exactly the managed frames be allocated after everything was freed",
+            format!("n={n}: {count} base allocations succeeded (slot {local:?})"),
+        );
+    }
     evals
 }
 
